@@ -3,6 +3,7 @@ from core import rng_for, mk, bits_of, L, R, randbits, Buffer
 from schc_run import Batch, obs_bits, with_timeout, parse_model_bits, parser_for
 from schc_util import n_rule, n_pdesc, rules_tokens, tb, ref_compress, ref_rule_applies, DIRC, gen_rule
 from gens import gen_parsed, gen_ruleset, b2s
+import packets as P
 from microschc.rfc8724extras import Context
 from microschc.manager import ContextManager
 from microschc.manager.manager import MatchStrategy
@@ -152,8 +153,36 @@ def run(rep, tier, seed):
         rules = [RuleDescriptor(id=mk(ida, rnd.choice([L, R])), field_descriptors=ra.field_descriptors), RuleDescriptor(id=mk(idb, rnd.choice([L, R])), field_descriptors=fds_b)]
         for strat in (MatchStrategy.FIRST, MatchStrategy.BEST):
             one(b, rnd, stack, pkt, pd, rules, d, strat, 'select-zero-width-indices:%s' % strat.value)
+    # two candidates whose outputs differ by fewer bits than a size prefix grows at its thresholds: rule A sends the last bits of a long
+    # option value as a variable-length LSB residue of exactly 13..16 or 253..257 bits (prefix 4 / 12 / 28 bits), rule B sends the value whole
+    # with a fixed length (no prefix) under an id that is 0..31 bits longer -- BEST must go by the sizes compress() really produces
+    from microschc.rfc8724 import RuleFieldDescriptor as _RFD, MatchingOperator as _MO, CompressionDecompressionAction as _CDA
+    from schc_util import gen_rfd
+    for k in range(40 if tier == 'quick' else 400):
+        vlen = rnd.choice([2, 2, 32, 32, 33])
+        pkt, st = P.coap(rnd, opts=[(11, vlen)], payload=rnd.choice([None, b'\x01\x02']))
+        pd = parser_for('CoAP').parse(Buffer(pkt, len(pkt) * 8))
+        d = rnd.choice([DI.UP, DI.DOWN])
+        pd.direction = d
+        big = max(range(len(pd.fields)), key=lambda i_: pd.fields[i_].value.length)
+        fb = bits_of(pd.fields[big].value)
+        want = rnd.choice([13, 14, 15, 16] if vlen == 2 else [253, 254, 255, 255, 256, 257])
+        x = len(fb) - want
+        if x < 0:
+            continue
+        base = [gen_rfd(rnd, f, rnd.choice(['vs', 'ns']), DI.BIDIRECTIONAL) for f in pd.fields]
+        fa, fb_ = list(base), list(base)
+        f_ = pd.fields[big]
+        fa[big] = _RFD(f_.id, 0, f_.position, DI.BIDIRECTIONAL, mk(fb[:x], rnd.choice([L, R])), _MO.MSB, _CDA.LSB)
+        fb_[big] = _RFD(f_.id, len(fb), f_.position, DI.BIDIRECTIONAL, Buffer(b'', 0), _MO.IGNORE, _CDA.VALUE_SENT)
+        ida = '0' + randbits(rnd, rnd.randint(0, 3))
+        idb = '1' + randbits(rnd, len(ida) - 1 + rnd.randint(0, 31))
+        ra = RuleDescriptor(id=mk(ida, rnd.choice([L, R])), field_descriptors=fa)
+        rb = RuleDescriptor(id=mk(idb, rnd.choice([L, R])), field_descriptors=fb_)
+        for rules in ([ra, rb], [rb, ra]):
+            for strat in (MatchStrategy.BEST, MatchStrategy.FIRST):
+                one(b, rnd, 'CoAP', pkt, pd, rules, d, strat, 'select-close-sizes-at-prefix-thresholds:%s' % strat.value)
     # large datagrams: every candidate of BEST is longer than 65535 bits
-    import packets as P
     for k in range(2 if tier == 'quick' else 12):
         src, dst = rnd.randbytes(16), rnd.randbytes(16)
         c_, _ = P.coap(rnd, payload=rnd.randbytes(rnd.choice([8200, 9000, 12000])))
